@@ -31,10 +31,12 @@ Record case := {
 Definition vols_match (den : Z) (nums : list Z) (vols : list Q) : bool :=
   list_eqb (fun n v => Qeq_bool (v * inject_Z den) (inject_Z n)) nums vols.
 
-Definition lw_match (o : lwobs) (L : labware) : bool :=
-  vols_match (o_den o) (o_nums o) (lw_vols L)
-  && (Z.of_nat (length (lw_hist L)) =? o_hlen o)%Z
+Definition lw_vols_match (o : lwobs) (L : labware) : bool :=
+  vols_match (o_den o) (o_nums o) (lw_vols L).
+Definition lw_hist_match (o : lwobs) (L : labware) : bool :=
+  (Z.of_nat (length (lw_hist L)) =? o_hlen o)%Z
   && option_eqb String.eqb (o_last o) (match last_opt (lw_hist L) with Some h => fst h | None => None end).
+Definition lw_match (o : lwobs) (L : labware) : bool := lw_vols_match o L && lw_hist_match o L.
 
 Definition two40 : Q := inject_Z (2 ^ 40).
 Definition frac_close (f : Q) (n : Z) : bool :=
@@ -70,13 +72,25 @@ Definition expect_match (s0 s1 : state) (e : option err) (x : expect) : bool :=
                         | None => false
                         end) (e_comp x).
 
-(** index of the first call whose observation differs *)
-Fixpoint run_check (s : state) (ops : list (op * expect)) (i : Z) : state * option Z :=
+(** which kinds of observable differ after one call: 1 outcome, 2 records, 4 volumes, 8 history, 16 composition *)
+Definition mismatch_kinds (s0 s1 : state) (e : option err) (x : expect) : Z :=
+  ((if oerr_match e (e_err x) then 0 else 1)
+   + (if strs_eqb (recs_since s0 s1) (e_recs x) then 0 else 2)
+   + (if list_eqb lw_vols_match (e_lw x) (st_lw s1) then 0 else 4)
+   + (if list_eqb lw_hist_match (e_lw x) (st_lw s1) then 0 else 8)
+   + (if forallb (fun kc => match nth_error (st_lw s1) (Z.to_nat (fst kc)) with
+                            | Some L => comp_match (snd kc) L
+                            | None => false
+                            end) (e_comp x) then 0 else 16))%Z.
+
+(** index of the first call whose observation differs, and what differs there *)
+Fixpoint run_check (s : state) (ops : list (op * expect)) (i : Z) : state * option (Z * Z) :=
   match ops with
   | [] => (s, None)
   | (o, x) :: r =>
       let '(s1, e) := step s o in
-      if expect_match s s1 e x then run_check s1 r (i + 1)%Z else (s1, Some i)
+      let m := mismatch_kinds s s1 e x in
+      if (m =? 0)%Z then run_check s1 r (i + 1)%Z else (s1, Some (i, m))
   end.
 
 Definition hist_match (h : list (option string * (Z * list Z))) (L : labware) : bool :=
@@ -101,18 +115,23 @@ Definition init_state (c : case) : option state :=
   | None => None
   end.
 
-(** verdict: None = agreement; Some (-1) = construction differs; Some i = call i differs;
-    Some (-2) = final histories / compositions differ *)
-Definition verdict (c : case) : option Z :=
+(** verdict: None = agreement; Some (-1, 32) = construction differs; Some (i, kinds) = call i differs in the
+    given kinds; Some (-2, kinds) = final histories (8) / compositions (16) differ *)
+Definition verdict (c : case) : option (Z * Z) :=
   match init_state c with
-  | None => Some (-1)%Z
+  | None => Some (-1, 32)%Z
   | Some s0 =>
       match run_check s0 (p_ops c) 0%Z with
-      | (_, Some i) => Some i
-      | (s, None) => if final_match (p_final c) s then None else Some (-2)%Z
+      | (_, Some im) => Some im
+      | (s, None) =>
+          let m := ((if list_eqb hist_match (f_hist (p_final c)) (st_lw s) then 0 else 8)
+                    + (if list_eqb comp_match (f_comp (p_final c)) (st_lw s) then 0 else 16))%Z in
+          if (m =? 0)%Z then None else Some (-2, m)%Z
       end
   end.
 Definition check (c : case) : bool := match verdict c with None => true | Some _ => false end.
+(** kinds of observable on which model and code differ (0 = agreement) *)
+Definition mask (c : case) : Z := match verdict c with None => 0%Z | Some (_, m) => m end.
 
 (** for replays: the model's own observations *)
 Definition model_trace (c : case) :=
